@@ -16,7 +16,7 @@
      set_aux c ch n = c with chk := ch and delayed := n (nothing else). *)
 From Coq Require Import List ZArith Lia Bool Arith NArith.
 From Coq.Strings Require Import Byte.
-From Muduo Require Import Gen_Consts Gen_Conn Conn_Model Conn_Proofs Conn_Trace
+From Muduo Require Import Gen_Consts Gen_Conn Conn_Model Conn_Proofs Conn_Trace Conn_Race
                           Conn_GenTie Conn_GenTieLife.
 Import ListNotations.
 
@@ -240,6 +240,21 @@ Theorem C03_flush_all_accepted_witness :
 Proof. exact P01_f6_witness. Qed.
 Print Assumptions C03_flush_all_accepted_witness.
 
+(* second way (the drain path): send() has returned on the foreign thread while a backlog is
+   pending; shutdown() can only mark the connection; handleWrite, seeing Disconnecting when the
+   backlog empties, half-closes before the queued block runs.  Changing runInLoop to queueInLoop
+   in shutdown() would not repair this one: the state is set synchronously. *)
+Theorem C03_flush_drain_path_witness :
+  exists c e, run (init 1024%N true true)
+                  [Establish; Send [x61; x62; x63; x64] (Accept 1); FSendCheck 1; FSendEnq 1 [x65; x66];
+                   Shutdown; EvWritable AcceptAll; RunOne AcceptAll; RunOne AcceptAll]
+              = Ok (c, e) /\
+    enq c = [(1, [x65; x66])] /\ ran c = [(1, [x65; x66])] /\
+    wire c = [x61; x62; x63; x64] /\ outb c = [] /\ accepted c = [x61; x62; x63; x64] /\
+    fin c = true /\ st c = Disconnecting /\ e = [EvUp; EvFin; EvErrorLogged; EvWC].
+Proof. exact f6_drain_path_witness. Qed.
+Print Assumptions C03_flush_drain_path_witness.
+
 (* What holds (missing w.r.t. the full text: foreign blocks whose functor had not run when the
    half-close executed).  At the half-close of a connection that is up everything sendInLoop
    had taken is on the wire, and from then on neither the wire nor the accepted stream changes.
@@ -265,6 +280,164 @@ Theorem C03_flush_partial_sends : forall c, reach c ->
      accepted c' = accepted c /\ wire c' = wire c /\ outb c' = outb c /\ ran c' = ran c ++ [(t, d)]).
 Proof. exact P01_accepted_delivered_partial. Qed.
 Print Assumptions C03_flush_partial_sends.
+
+(* ---- close requests from a FOREIGN thread: load, store and hand-off are separate steps ------- *)
+(* shutdown(), forceClose(), forceCloseWithDelay() read
+     if (state_ == kConnected [|| state_ == kDisconnecting]) { setState(kDisconnecting); <hand-off> }
+   with a plain load and a plain store.  On the loop thread (ops Shutdown, ForceClose,
+   ForceCloseDelay, DelayFire above) the three are one step.  Called from another thread the loop
+   thread runs between them; the x-machine of Conn_Model ([xstep], spelled out by C03_xstep_def:
+   [Base o] = an op of the machine above, [XCheck t r] = the load and comparison, [XSet t] = the
+   store, [XEnq t] = queueInLoop / runInLoop / runAfter) executes them one by one.
+
+   REFUTED (finding "foreign-close-request-check-then-store").  "forceClose() brings the
+   connection DOWN exactly once" is false when the loop thread closes the connection between a
+   foreign request's load and its store: the store overwrites kDisconnected with kDisconnecting,
+   and the queued connectDestroyed (or, if that has already run, the queued forceCloseInLoop)
+   passes its state test and reports DOWN a second time.  Same for shutdown() and
+   forceCloseWithDelay(). *)
+Theorem C03_force_close_once_foreign_refuted :
+  ~ (forall mark wc hw ops x e, xrun (xinit mark wc hw) ops = Ok (x, e) -> count is_down e <= 1).
+Proof. exact down_once_foreign_refuted. Qed.
+Print Assumptions C03_force_close_once_foreign_refuted.
+
+(* the witness, for each of the three requests r: UP, DOWN, DOWN; the hypothesis of the partial
+   theorem below fails on it; the stream equations of C01 still hold at the end, the invariant of
+   the base machine does not *)
+Theorem C03_foreign_close_race_witness : forall r,
+  exists x e, xrun (xinit 1024%N true true) (race_ops r) = Ok (x, e) /\
+    count is_down e = 2 /\ count is_up e = 1 /\ downs (xbase x) = 2 /\
+    filter (fun ev => is_up ev || is_down ev) e = [EvUp; EvDown; EvDown] /\
+    ~ race_free (xinit 1024%N true true) (race_ops r) /\
+    InvS (xbase x) /\ ~ Inv (xbase x).
+Proof. exact race_witness. Qed.
+Print Assumptions C03_foreign_close_race_witness.
+
+Theorem C03_race_ops_def : forall r,
+  race_ops r = [Base Establish; XCheck 1 r; Base EvReadEOF; XSet 1; XEnq 1; Base (RunOne AcceptAll); Base (RunOne AcceptAll)].
+Proof. exact race_ops_unfold. Qed.
+Print Assumptions C03_race_ops_def.
+
+(* the other order: connectDestroyed has already run (channel removed) when the store lands; the
+   queued forceCloseInLoop then runs handleClose a second time on the unregistered connection *)
+Theorem C03_foreign_close_race_witness2 :
+  exists x e, xrun (xinit 1024%N true true) race_ops2 = Ok (x, e) /\
+    filter (fun ev => is_up ev || is_down ev) e = [EvUp; EvDown; EvDown] /\ downs (xbase x) = 2 /\
+    registered (xbase x) = false /\ st (xbase x) = Disconnected.
+Proof. exact race_witness2. Qed.
+Print Assumptions C03_foreign_close_race_witness2.
+
+Theorem C03_race_ops2_def :
+  race_ops2 = [Base Establish; XCheck 1 RForceClose; Base EvReadEOF; Base (RunOne AcceptAll); XSet 1; XEnq 1;
+               Base (RunOne AcceptAll); Base (RunOne AcceptAll)].
+Proof. exact race_ops2_unfold. Qed.
+Print Assumptions C03_race_ops2_def.
+
+(* PARTIAL (missing w.r.t. the text: histories in which the loop thread changes state_ between a
+   foreign request's load and its store).  Hypothesis [race_free]: at every store the request's
+   state test still passes - in particular when load and store are adjacent, when the call is made
+   on the loop thread, or when no loop-thread step in between changes the state.  Then, wherever
+   the loads, stores and hand-offs are placed: no assertion of the C++ fires, the full invariant
+   of the base machine holds at the end (so every theorem above that is stated for reachable
+   states applies), at most one UP, at most one DOWN, and DOWN exactly when Disconnected. *)
+Theorem C03_force_close_once_foreign_partial : forall mark wc hw ops,
+  race_free (xinit mark wc hw) ops ->
+  xrun (xinit mark wc hw) ops <> Fault /\
+  forall x e, xrun (xinit mark wc hw) ops = Ok (x, e) ->
+    Inv (xbase x) /\ count is_up e <= 1 /\ count is_down e <= count is_up e /\
+    (count is_down e = 1 <-> st (xbase x) = Disconnected).
+Proof.
+  exact (fun mark wc hw ops Hrf =>
+           conj (proj1 (xrun_race_free ops _ (xinit_inv mark wc hw) Hrf))
+                (fun x e H => xrun_race_free_once mark wc hw ops x e Hrf H)).
+Qed.
+Print Assumptions C03_force_close_once_foreign_partial.
+
+Theorem C03_race_free_def : forall x ops,
+  race_free x ops =
+  match ops with
+  | [] => True
+  | o :: r => set_ok x o /\ match xstep x o with Ok (x1, _) => race_free x1 r | _ => True end
+  end.
+Proof. exact race_free_unfold. Qed.
+Print Assumptions C03_race_free_def.
+
+Theorem C03_set_ok_def : forall x o,
+  set_ok x o =
+  match o with
+  | XSet t =>
+      match find_req t (xreqs x) with
+      | Some q => rq_passed q = true -> rq_stored q = false -> creq_test (rq_kind q) (st (xbase x)) = true
+      | None => True
+      end
+  | _ => True
+  end.
+Proof. exact set_ok_unfold. Qed.
+Print Assumptions C03_set_ok_def.
+
+Theorem C03_creq_test_def : forall r s,
+  creq_test r s = match r with
+                  | RShutdown => cstate_eqb s Connected
+                  | RForceClose | RForceCloseDelay => cstate_eqb s Connected || cstate_eqb s Disconnecting
+                  end.
+Proof. exact creq_test_unfold. Qed.
+Print Assumptions C03_creq_test_def.
+
+Theorem C03_xstep_def : forall x o,
+  xstep x o =
+  match o with
+  | Base b =>
+      match step (xbase x) b with
+      | Ok (c', e) => Ok (mkX (rereg (xbase x) c') (xreqs x), e)
+      | Rejected => Rejected
+      | Fault => Fault
+      end
+  | XCheck t r =>
+      if cstate_eqb (st (xbase x)) Connecting then Rejected
+      else match find_req t (xreqs x) with
+           | Some _ => Rejected
+           | None => Ok (mkX (xbase x) (mkReq t r (creq_test r (st (xbase x))) false :: xreqs x), [])
+           end
+  | XSet t =>
+      match find_req t (xreqs x) with
+      | Some q =>
+          if rq_stored q then Rejected
+          else Ok (mkX (if rq_passed q then set_st (xbase x) Disconnecting else xbase x)
+                       (mkReq t (rq_kind q) (rq_passed q) true :: drop_req t (xreqs x)), [])
+      | None => Rejected
+      end
+  | XEnq t =>
+      match find_req t (xreqs x) with
+      | Some q =>
+          if rq_stored q
+          then Ok (mkX (if rq_passed q then creq_enqueue (rq_kind q) (xbase x) else xbase x)
+                       (drop_req t (xreqs x)), [])
+          else Rejected
+      | None => Rejected
+      end
+  end.
+Proof. exact xstep_unfold. Qed.
+Print Assumptions C03_xstep_def.
+
+(* adjacent load, store and hand-off ARE the atomic ops of the machine above; and on a state
+   satisfying the invariant a Base op of the x-machine is the op of the base machine ([rereg],
+   which keeps the registration flag faithful in racy states, is then the identity) *)
+Theorem C03_adjacent_is_atomic : forall c reqs t, st c <> Connecting -> find_req t reqs = None ->
+  xrun (mkX c reqs) [XCheck t RShutdown; XSet t; XEnq t] = xstep (mkX c reqs) (Base XShutdown) /\
+  xrun (mkX c reqs) [XCheck t RForceClose; XSet t; XEnq t] = xstep (mkX c reqs) (Base ForceClose) /\
+  xrun (mkX c reqs) [XCheck t RForceCloseDelay; XSet t; XEnq t] = xstep (mkX c reqs) (Base ForceCloseDelay).
+Proof. exact adjacent_is_atomic. Qed.
+Print Assumptions C03_adjacent_is_atomic.
+
+Theorem C03_xstep_base : forall c reqs o, Inv c ->
+  xstep (mkX c reqs) (Base o) =
+  match step c o with
+  | Ok (c', e) => Ok (mkX c' reqs, e)
+  | Rejected => Rejected
+  | Fault => Fault
+  end.
+Proof. exact xstep_base. Qed.
+Print Assumptions C03_xstep_base.
 
 (* ---- source: the tests of the current TcpConnection.cc ------------------------------------ *)
 (* shutdown(): `if (state_ == kConnected)`; inline shutdownInLoop on the loop thread, a queued
